@@ -55,6 +55,12 @@ func TestVerifShutdownFullQueue(t *testing.T) {
 		NetflowV9TplCacheFile: filepath.Join(dir, "nf9.tpl"),
 		NetflowV5Enabled: proto == "netflow5", NetflowV5Port: port, NetflowV5Addr: "127.0.0.1", NetflowV5Workers: 2, NetflowV5UDPSize: 1500,
 		SFlowEnabled: proto == "sflow", SFlowPort: port, SFlowAddr: "127.0.0.1", SFlowWorkers: 2, SFlowUDPSize: 1500}
+	if os.Getenv("VERIF_MIRROR") == "1" {
+		// mirroring enabled (real dispatcher and raw-socket mirror worker towards a loopback port nobody listens on)
+		mport, _ := strconv.Atoi(os.Getenv("VERIF_MIRROR_PORT"))
+		opts.IPFIXMirrorAddr, opts.IPFIXMirrorPort, opts.IPFIXMirrorWorkers = "127.0.0.1", mport, 1
+		opts.SFlowMirrorAddr, opts.SFlowMirrorPort, opts.SFlowMirrorWorkers = "127.0.0.1", mport, 1
+	}
 	res := sdResult{Proto: proto}
 
 	gate := make(chan struct{})
